@@ -183,14 +183,14 @@ def Form.specMatch (p : Path) : Form → Bool
   | .globDir _ g => (dirParts p).any (fun part => glob g part)
   | .dirPath q => q.isPrefixOf (dirParts p)          -- everything below that directory, at any depth
 
-/-- well-formed documented pattern: literal name / extension without `/` -/
+/-- well-formed documented pattern: literal name / extension without `/`; a directory path of two or more literal components -/
 def Form.wf : Form → Bool
   | .dirName n => literal n && !n.contains '/' && !n.isEmpty
   | .anyDirName n => literal n && !n.contains '/' && !n.isEmpty
   | .ext e => literal e && !e.contains '/'
   | .exact q => literal (joinPath q) && q.all (fun c => !c.contains '/' && !c.isEmpty) && !q.isEmpty
   | .globDir _ g => !g.contains '/' && !g.isEmpty && !g.contains '['
-  | .dirPath _ => false      -- modelled and specified, but outside `forms_exact`: its exactness is sampled by the correspondence check only
+  | .dirPath q => literal (joinPath q) && q.all (fun c => !c.contains '/' && !c.isEmpty) && decide (2 ≤ q.length)
 
 /-- excluded by the always-excluded names: inside such a directory (below the target), or a compiled suffix -/
 def specExcluded (p : Path) : Bool :=
